@@ -440,6 +440,7 @@ func c08gen(c *h.Ctx, yield func(*h.Case)) {
 		{"proof-stale-nonce", "both", func(d *c08desc) { d.sig = "v/stale/new:v" }},
 		{"proof-stale-nonce-replayed-by-other", "both", func(d *c08desc) { d.op, d.sig = "a", "v/stale/new:v" }},
 		{"proof-foreign-nonce", "both", func(d *c08desc) { d.sig = "v/foreign/new:v" }},
+		{"proof-all-zero-nonce", "both", func(d *c08desc) { d.sig = "v/zero/new:v" }},
 		{"proof-over-other-name", "both", func(d *c08desc) { d.sig = "v/cur/old:v" }},
 		{"proof-over-other-key-name", "both", func(d *c08desc) { d.op, d.sig = "a", "a/cur/new:a" }},
 		{"names-own-key-when-other-dialled", "dial", func(d *c08desc) {
@@ -529,7 +530,7 @@ func c08gen(c *h.Ctx, yield func(*h.Case)) {
 			case 1:
 				d.cn = pick(names...)
 			case 2:
-				d.sig = pick("v", "a", "h") + "/" + pick("cur", "cur", "stale", "foreign") + "/" + pick(names...)
+				d.sig = pick("v", "a", "h") + "/" + pick("cur", "cur", "stale", "foreign", "zero") + "/" + pick(names...)
 			case 3:
 				d.sig = pick("none", "junk", "flip")
 			case 4:
